@@ -114,3 +114,8 @@ MC_ORACLE unsigned h_call_dequeues (int fiber) {
 	return *(volatile uint32_t *) &w->remove_count - rc_at_begin[fiber];
 }
 MC_ORACLE int h_call_has_waited (int fiber) { return h_call_dequeues (fiber) != 0; }
+/* is the fiber's waiter record marked as waiting (queued, or dequeued by a waker that has not yet cleared the flag) */
+MC_ORACLE int h_waiter_flagged (int fiber) {
+	waiter *w = (waiter *) mc_tls_waiter_of (fiber);
+	return w != NULL && *(volatile uint32_t *) &w->nw.waiting != 0;
+}
